@@ -223,6 +223,22 @@ func xdsNeedsPush(req *model.PushRequest, proxy *model.Proxy) (needsPush, defini
 	return false, false
 }
 
+// headlessEndpointUpdateOnly reports whether every trigger merged into this request is a headless
+// endpoint update. Debouncing may merge a headless endpoint marker (a kind.ServiceEntry key) with other
+// kind.ServiceEntry keyed updates, such as a full push requested by EDSUpdate for a new service or a
+// service account change; those must not be skipped together with the marker.
+func headlessEndpointUpdateOnly(req *model.PushRequest) bool {
+	if !req.Reason.Has(model.HeadlessEndpointUpdate) {
+		return false
+	}
+	for reason, count := range req.Reason {
+		if count > 0 && reason != model.HeadlessEndpointUpdate {
+			return false
+		}
+	}
+	return true
+}
+
 // waypointNeedsPush checks if a push is needed for a waypoint proxy on incremental kind.Address changes.
 // Waypoint listeners, clusters, and routes are built from the services and workloads attached to the
 // waypoint (e.g. the main_internal listener matches attached service VIPs and attached workload IPs),
